@@ -417,9 +417,10 @@ def run_impl(lines, profile="debug", serde=False, timeout=900, tag="impl"):
     return _run_sharded(lambda p: [harness_bin(profile, serde), "run", p], lines, NCPU, tag + profile, timeout)
 
 
-def run_model(lines, timeout=900, tag="model"):
+def run_model(lines, timeout=900, tag="model", env_extra=None):
     env = dict(ENV)
     env["EVX_ORACLE"] = harness_bin("debug")
+    env.update(env_extra or {})
     return _run_sharded(lambda p: [os.path.join(DRIVER, "driver"), p], lines, NCPU, tag, timeout, env=env)
 
 
